@@ -9,6 +9,57 @@ from . import speccheck
 PROP = "C01"
 
 
+def temporal_pipelines(v, findings):
+    """pipelines over date / datetime columns (outside the generated value domain): component functions as values, as filter
+    predicates and as grouping keys give the same table on Polars and on SQLite (sub-second parts excepted: the library warns
+    that SQLite rounds them)"""
+    import datetime as dt
+
+    import polars as pl
+    import pydiverse.transform as pdt
+    import sqlalchemy as sqa
+
+    from . import oracle
+    from . import prog as P
+
+    base = dt.date(2023, 12, 25)
+    dates = [base + dt.timedelta(days=i) for i in range(14)] + [dt.date(2020, 2, 29), dt.date(2000, 3, 1), dt.date(1999, 12, 31), None]
+    stamps = [dt.datetime(d.year, d.month, d.day, (7 * i) % 24, (13 * i) % 60, (17 * i) % 60) if d is not None else None for i, d in enumerate(dates)]
+    df = pl.DataFrame({"k": list(range(len(dates))), "d": dates, "t": stamps, "x": [i % 5 for i in range(len(dates))]},
+                      schema={"k": pl.Int64, "d": pl.Date, "t": pl.Datetime("us"), "x": pl.Int64})
+    eng = sqa.create_engine("sqlite://")
+    df.write_database("c01temporal", eng)
+    fns = ["year", "month", "day", "day_of_week", "day_of_year", "hour", "minute", "second"]
+    bad, n = {}, 0
+    for col in ("d", "t"):
+        for fname in fns:
+            if col == "d" and fname in ("hour", "minute", "second"):
+                continue
+            shapes = {
+                "value": lambda t, e: t >> pdt.mutate(y=e) >> pdt.arrange(t.k) >> pdt.select(t.k, pdt.C.y),
+                "filter": lambda t, e: t >> pdt.filter(e >= 6) >> pdt.arrange(t.k) >> pdt.select(t.k),
+                "group": lambda t, e: t >> pdt.mutate(y=e) >> pdt.group_by(pdt.C.y) >> pdt.summarize(n=pdt.count(), s=t.x.sum()) >> pdt.arrange(pdt.C.y.nulls_first()),
+                "window": lambda t, e: t >> pdt.mutate(r=t.x.sum(partition_by=e)) >> pdt.arrange(t.k) >> pdt.select(t.k, pdt.C.r),
+            }
+            for sname, build in shapes.items():
+                frames = {}
+                for be in ("polars", "sqlite"):
+                    t = pdt.Table(df, name="c01temporal") if be == "polars" else pdt.Table("c01temporal", pdt.SqlAlchemy(eng))
+                    try:
+                        out = build(t, getattr(t[col].dt, fname)()) >> pdt.export(pdt.Polars())
+                        frames[be] = dict(names=out.columns, rows=[[P.encode_val(x) for x in row] for row in out.rows()])
+                    except Exception as e:  # noqa: BLE001
+                        frames[be] = "error:" + type(e).__name__ + ":" + str(e)[:120]
+                n += 1
+                a, b = frames["polars"], frames["sqlite"]
+                d = (f"{a} vs {b}"[:300] if isinstance(a, str) or isinstance(b, str) else oracle.compare_frames(a, b, True))
+                if d:
+                    bad.setdefault((fname, sname), []).append(dict(column=col, detail=d))
+    for key, items in bad.items():
+        v.violation("temporal-" + "-".join(key), dict(kind="temporal_pipeline_differs", fn="dt_" + key[0], shape=key[1], cases=items[:4], how="harness/c01.py:temporal_pipelines"))
+    return len(bad), dict(temporal_pipelines=n)
+
+
 def run(tier, seed):
-    return speccheck.run(PROP, tier, seed, ["general", "rowlevel", "agg", "window", "join", "subquery", "union", "slices", "tall", "scen_window_nulls", "scen_join_hidden", "scen_selfjoin_agg", "scen_join_suffix", "scen_rename_hidden", "scen_union_const", "scen_union_distinct", "scen_const_key", "scen_join_all", "scen_subq_group", "scen_union_agg_right", "scen_subq_hidden", "scen_summarize_key"], 400, 20000, also=("C08",),
+    return speccheck.run(PROP, tier, seed, ["general", "rowlevel", "agg", "window", "join", "subquery", "union", "slices", "tall", "scen_window_nulls", "scen_join_hidden", "scen_selfjoin_agg", "scen_join_suffix", "scen_rename_hidden", "scen_union_const", "scen_union_distinct", "scen_const_key", "scen_join_all", "scen_subq_group", "scen_union_agg_right", "scen_subq_hidden", "scen_summarize_key"], 400, 20000, also=("C08",), extra_stream=temporal_pipelines,
                          assumptions=["values restricted to the domain of DESIGN.md section 4"])
